@@ -14,6 +14,7 @@ import (
 
 	"verif/harness/bgen"
 	"verif/harness/gen"
+	"verif/harness/geo"
 	"verif/harness/oracle"
 	"verif/harness/vf"
 )
@@ -165,6 +166,14 @@ func checkBool(c Case, r *vf.R) error {
 			if r.Excluded("F01e", oracle.SelfIntersects(P.polys, 1e-9) && oracle.SelfIntersects(Q.polys, 1e-9)) {
 				return nil
 			}
+			// curved operands are flattened first: the open findings of Flatten (C03) apply to their segments
+			for _, o := range []operand{P, Q} {
+				for _, sg := range o.segs {
+					if _, f := geo.FlattenBound(sg, canvas.Tolerance); f != "" && r.Excluded(f, true) {
+						return nil
+					}
+				}
+			}
 		}
 	}
 	if err != nil && survey {
@@ -301,9 +310,14 @@ func checkBool1(c Case, r *vf.R) error {
 	}
 	pd, qd := append([]float64(nil), P.path.Data()...), append([]float64(nil), Q.path.Data()...)
 	// guard band: snap grid for flat operands, plus the flattening tolerance of curved ones
+	// (the bounds property C03 enforces for Flatten, per segment; flat operands keep 1e-6)
 	delta := 1e-6
-	if c.Curved {
-		delta = 2.5*canvas.Tolerance + 1e-6
+	for _, o := range []operand{P, Q} {
+		for _, sg := range o.segs {
+			if b, _ := geo.FlattenBound(sg, canvas.Tolerance); b+1e-6 > delta {
+				delta = b + 1e-6
+			}
+		}
 	}
 	if touches(P, Q) {
 		r.NonTrivial()
@@ -386,7 +400,7 @@ func checkBool1(c Case, r *vf.R) error {
 	per := oracle.Length(P.polys) + oracle.Length(Q.polys)
 	atol := per*delta*4 + 1e-9
 	if c.Curved {
-		atol = per * canvas.Tolerance * 3
+		atol = per * math.Max(canvas.Tolerance*3, delta)
 	}
 	if math.Abs(aAnd+aOr-aA-aB) > atol {
 		return vf.Errorf("inclusion-exclusion: |And| %v + |Or| %v != |P| %v + |Q| %v (tolerance %g) P=%v Q=%v", aAnd, aOr, aA, aB, atol, P.path, Q.path)
